@@ -44,7 +44,7 @@ MANIFEST = {
 
 PLANS_QUICK = ["scan", "custom", "neverclose", "norun", "nested", "fly", "clearcp", "two_runs", "rw_fail", "count"]
 # (not 'cleanup_fails': its cleanup always raises, and abort()/stop()/halt() legitimately re-raise that error)
-PLANS_THOROUGH = [p for p in CORPUS if p != "cleanup_fails"]
+PLANS_THOROUGH = [p for p in CORPUS if p != "cleanup_fails" and not p.startswith("count_mixed")]
 SHARD_TIMEOUT = {"quick": 900, "thorough": 3600}
 
 
